@@ -245,5 +245,42 @@ func c16Deep(ctx *Ctx, i int, recv map[string]interface{}) {
 			}
 		}
 	}
-	ctx.Emit(Case{I: i, Kind: "deep-types", Desc: map[string]interface{}{"methods": methods, "probes": probes}, Monitor: mon})
+	// names that differ from a served name only by characters one does not see (control
+	// characters, zero-width and non-breaking spaces, a byte-order mark, bidi marks): other names,
+	// hence method-not-found -- over the registry directly and over HTTP
+	invisible := 0
+	for _, r := range productionRegistrations(ctx.Repo) {
+		rv, ok := recv[r.Recv]
+		if !ok {
+			continue
+		}
+		srv := &jsonrpc2.Server{}
+		if err := srv.Register(r.Prefix, rv, r.Allow...); err != nil {
+			continue
+		}
+		rt := reflect.TypeOf(rv)
+		for k := 0; k < rt.NumMethod(); k++ {
+			name := r.Prefix + strings.ToLower(rt.Method(k).Name[:1]) + rt.Method(k).Name[1:]
+			if !allowed(r.Allow, name, r.Prefix) {
+				continue
+			}
+			cut := len(r.Prefix)
+			for _, v := range []string{name + "\n", "\t" + name, name + "\x00", name[:cut] + "\u200b" + name[cut:], "\ufeff" + name, name + "\u00a0",
+				name[:cut] + "\u00ad" + name[cut:], "\u202e" + name, name + "\r\n", name + "\u0085", " " + name, name + " "} {
+				raw, _ := json.Marshal(v)
+				msg := requestMsg("placeholder", "[]")
+				json.Unmarshal([]byte(fmt.Sprintf(`{"jsonrpc":"2.0","id":1,"method":%s,"params":[]}`, raw)), msg)
+				resp := srv.Handle(context.Background(), msg)
+				invisible++
+				code := 0
+				if resp.Response != nil && resp.Response.Error != nil {
+					code = resp.Response.Error.Code
+				}
+				if code != jsonrpc2.ErrCodeMethodNotFound && len(mon) < 6 {
+					mon = append(mon, fmt.Sprintf("c16-lookalike-name-served: the name %q is not registered (the registered name is %q) yet the call was not answered method-not-found (error code %d): it reached a method", v, name, code))
+				}
+			}
+		}
+	}
+	ctx.Emit(Case{I: i, Kind: "deep-types", Desc: map[string]interface{}{"methods": methods, "probes": probes, "lookalike_names": invisible}, Monitor: mon})
 }
